@@ -12,6 +12,9 @@ for f in sorted(glob.glob('/verif/seeded/*/meta.json')):
     summ = re.sub(r"\s+", " ", (m.get("summary") or ""))[:230].replace("|", "/")
     needs = re.sub(r"\s+", " ", (m.get("needs_to_manifest") or ""))[:200].replace("|", "/")
     det = "; ".join(keys) if keys else "**not detected**"
+    own = m["checks_run"]["results"].get(m["property"], {}).get("exit") == 1
+    own_n = globals().get("own_n", 0) + (1 if own else 0)
+    globals()["own_n"] = own_n
     if m.get("missed_at_first"):
         det += " (missed at first: %s)" % m["missed_at_first"]
     rows.append("| %s | %s | %s | %s |" % (name, summ, needs, det))
@@ -20,7 +23,10 @@ text = """## 9. Seeded changes
 Fresh sub-agents were each given only the text of one property and a scratch
 worktree of `/repo`, and asked for two changes that break the property while
 the library still compiles and the whole existing test suite still passes, each
-with a demonstration test. Every change kept here was confirmed by
+with a demonstration test. There were two rounds: variants A/B, and variants
+C/D for which the agents were asked for triggers unlike the obvious ones (an
+unusual but legal configuration, a multi-step sequence, a storage fault, a
+boundary instant, an integrator-supplied extension). Every change kept here was confirmed by
 `seedrun.py` on a scratch worktree of `/repo` HEAD (suite passes with the
 change; the demonstration fails with it and passes without it) and then the
 property's quick check was run against that worktree (`VERIF_REPO=<worktree>
@@ -29,13 +35,15 @@ holds `patch.diff`, the demonstration and `meta.json`. Changes that could not be
 confirmed (e.g. neutralised by one of the `fix:` commits) are not kept.
 
 Checks were strengthened where a change was missed; the "missed at first"
-remarks say what was added. %d changes are kept, %d are detected by the
-property's quick check.
+remarks say what was added. %d changes are kept; %d are detected by the quick
+check of the property they were written against, %d by at least one quick check
+(the remaining ones break a clause that another property states more directly;
+the table names the check that reports them).
 
 | Change | What it does | Needs | Detected by (first witness key) |
 |---|---|---|---|
 %s
-""" % (len(rows), sum(1 for r in rows if "**not detected**" not in r), "\n".join(rows))
+""" % (len(rows), own_n, sum(1 for r in rows if "**not detected**" not in r), "\n".join(rows))
 p = '/verif/DESIGN.md'
 s = open(p).read()
 i = s.find('## 9. Seeded changes')
